@@ -2,7 +2,7 @@
 """Run the repository's pinned baseline (guard OFF) and compare with /root/.vp/BASELINE.json stable_pass.
 usage: tools/baseline.py [repo_dir]   exit 0 iff every stable_pass test passes."""
 import json, os, subprocess, sys, tempfile, xml.etree.ElementTree as ET
-repo = sys.argv[1] if len(sys.argv) > 1 else "/repo"
+repo = [a for a in sys.argv[1:] if not a.startswith("--")][0] if [a for a in sys.argv[1:] if not a.startswith("--")] else "/repo"
 base = json.load(open("/root/.vp/BASELINE.json"))
 out = tempfile.mktemp(suffix=".xml")
 env = dict(os.environ); env.pop("XMLSCHEMA_VERIF", None)
@@ -16,6 +16,18 @@ for tc in ET.parse(out).getroot().iter("testcase"):
         passed.add("%s::%s" % (tc.get("classname"), tc.get("name")))
 os.unlink(out)
 missing = [t for t in base["stable_pass"] if t not in passed]
+if missing and extra:
+    # a few tests write to shared temporary files and are flaky under xdist: confirm serially before reporting
+    out2 = tempfile.mktemp(suffix=".xml")
+    subprocess.run(["/venv/bin/python", "-m", "pytest", "-ra", "-q", "-p", "no:cacheprovider", "--timeout=900",
+                    "--continue-on-collection-errors", "--junitxml=" + out2], cwd=repo, env=env,
+                   stdout=subprocess.DEVNULL, stderr=subprocess.DEVNULL)
+    passed = set()
+    for tc in ET.parse(out2).getroot().iter("testcase"):
+        if not any(c.tag in ("failure", "error", "skipped") for c in tc):
+            passed.add("%s::%s" % (tc.get("classname"), tc.get("name")))
+    os.unlink(out2)
+    missing = [t for t in base["stable_pass"] if t not in passed]
 print("stable_pass=%d passed_now=%d missing=%d" % (len(base["stable_pass"]), len(passed), len(missing)))
 for t in missing[:30]:
     print("  NOT PASSING:", t)
